@@ -877,4 +877,233 @@ theorem runStream_live_focused {cfg : Cfg} {srv : Server} {pol : Policy} {sched 
       show n ∈ fileNames (dedupFiles [] got)
       exact (dedupFiles_nil_names got n).2 (mem_fileNames.2 ⟨g, hg, hfn⟩)
 
+/-! ### the registry: protodesc.NewFiles accepts what the BFS hands over, content is the target's -/
+
+theorem nodupB_iff {α : Type} [DecidableEq α] : ∀ (l : List α), nodupB l = true ↔ l.Nodup := by
+  intro l
+  induction l with
+  | nil => simp [nodupB]
+  | cons a r ih => simp [nodupB, ih, List.nodup_cons]
+
+theorem unique_owner {α β : Type} (g : α → List β) : ∀ {L : List α}, (L.flatMap g).Nodup →
+    ∀ {a b : α} {x : β}, a ∈ L → b ∈ L → x ∈ g a → x ∈ g b → a = b := by
+  intro L
+  induction L with
+  | nil => intro _ a b x ha; simp at ha
+  | cons y rest ih =>
+    intro hn a b x ha hb hxa hxb
+    rw [List.flatMap_cons, List.nodup_append] at hn
+    rcases List.mem_cons.1 ha with e1 | ha'
+    · rcases List.mem_cons.1 hb with e2 | hb'
+      · rw [e1, e2]
+      · subst e1
+        exact absurd rfl (hn.2.2 x hxa x (List.mem_flatMap.2 ⟨b, hb', hxb⟩))
+    · rcases List.mem_cons.1 hb with e2 | hb'
+      · subst e2
+        exact absurd rfl (hn.2.2 x hxb x (List.mem_flatMap.2 ⟨a, ha', hxa⟩))
+      · exact ih hn.2.1 ha' hb' hxa hxb
+
+theorem nodup_flatMap_of_subset {α β : Type} (g : α → List β) {L : List α} (hL : (L.flatMap g).Nodup) :
+    ∀ (ds : List α), ds.Nodup → (∀ a ∈ ds, a ∈ L) → (ds.flatMap g).Nodup := by
+  intro ds
+  induction ds with
+  | nil => intro _ _; simp
+  | cons a rest ih =>
+    intro hn hsub
+    rw [List.nodup_cons] at hn
+    rw [List.flatMap_cons, List.nodup_append]
+    refine ⟨(List.pairwise_flatMap.1 hL).1 a (hsub a List.mem_cons_self),
+      ih hn.2 (fun x hx => hsub x (List.mem_cons_of_mem _ hx)), ?_⟩
+    intro x hx y hy hxy
+    subst hxy
+    rcases List.mem_flatMap.1 hy with ⟨b, hb, hxb⟩
+    have : a = b := unique_owner g hL (hsub a List.mem_cons_self) (hsub b (List.mem_cons_of_mem _ hb)) hx hxb
+    subst this
+    exact hn.1 hb
+
+theorem nodup_of_nodup_names : ∀ {ds : List DFile}, (fileNames ds).Nodup → ds.Nodup := by
+  intro ds
+  induction ds with
+  | nil => intro _; simp
+  | cons a rest ih =>
+    intro h
+    simp only [fileNames, List.map_cons, List.nodup_cons] at h
+    rw [List.nodup_cons]
+    exact ⟨fun hin => h.1 (List.mem_map.2 ⟨a, hin, rfl⟩), ih h.2⟩
+
+theorem exists_min_rank (rank : Name → Nat) : ∀ (fs : List DFile), fs ≠ [] →
+    ∃ f ∈ fs, ∀ g ∈ fs, rank f.name ≤ rank g.name := by
+  intro fs
+  induction fs with
+  | nil => intro h; exact absurd rfl h
+  | cons a rest ih =>
+    intro _
+    cases hr : rest with
+    | nil => exact ⟨a, List.mem_cons_self, by intro g hg; simp at hg; subst hg; exact Nat.le_refl _⟩
+    | cons b r2 =>
+      have : rest ≠ [] := by rw [hr]; simp
+      rcases ih this with ⟨m, hm, hmin⟩
+      rw [← hr]
+      by_cases hle : rank a.name ≤ rank m.name
+      · refine ⟨a, List.mem_cons_self, ?_⟩
+        intro g hg
+        rcases List.mem_cons.1 hg with e | hg'
+        · subst e; exact Nat.le_refl _
+        · exact Nat.le_trans hle (hmin g hg')
+      · refine ⟨m, List.mem_cons_of_mem _ hm, ?_⟩
+        intro g hg
+        rcases List.mem_cons.1 hg with e | hg'
+        · subst e; omega
+        · exact hmin g hg'
+
+/-- the topological peeling succeeds on any set whose imports go down a rank and are either already
+    peeled or still in the set -/
+theorem peel_ok (rank : Name → Nat) : ∀ (n : Nat) (done : List Name) (fs : List DFile),
+    (∀ f ∈ fs, ∀ d ∈ f.deps, rank d < rank f.name) →
+    (∀ f ∈ fs, ∀ d ∈ f.deps, d ∈ done ∨ d ∈ fileNames fs) →
+    fs.length ≤ n → peel done n fs = true := by
+  intro n
+  induction n with
+  | zero =>
+    intro done fs _ _ hl
+    have : fs = [] := List.length_eq_zero_iff.1 (Nat.le_zero.1 hl)
+    subst this; simp [peel]
+  | succ n ih =>
+    intro done fs hrank hdeps hl
+    cases hfs : fs with
+    | nil => simp [peel]
+    | cons a rest =>
+      rw [← hfs]
+      have hne : fs ≠ [] := by rw [hfs]; simp
+      rcases exists_min_rank rank fs hne with ⟨m, hm, hmin⟩
+      have hmready : (m.deps.all (· ∈ done)) = true := by
+        rw [List.all_eq_true]
+        intro d hd
+        rcases hdeps m hm d hd with h | h
+        · simpa using h
+        · rcases mem_fileNames.1 h with ⟨g, hg, hgn⟩
+          have h1 := hrank m hm d hd
+          have h2 := hmin g hg
+          rw [hgn] at h2
+          omega
+      have hmem : m ∈ fs.filter (fun f => f.deps.all (· ∈ done)) := List.mem_filter.2 ⟨hm, hmready⟩
+      have hready : (fs.filter (fun f => f.deps.all (· ∈ done))).isEmpty = false := by
+        cases hq : fs.filter (fun f => f.deps.all (· ∈ done)) with
+        | nil => rw [hq] at hmem; simp at hmem
+        | cons _ _ => rfl
+      have hpeel : peel done (n + 1) fs =
+          peel (done ++ fileNames (fs.filter (fun f => f.deps.all (· ∈ done)))) n
+            (fs.filter (fun f => !(f.deps.all (· ∈ done)))) := by
+        rw [hfs]
+        simp only [peel]
+        rw [← hfs, hready]
+        simp
+      rw [hpeel]
+      apply ih
+      · intro f hf; exact hrank f (List.mem_filter.1 hf).1
+      · intro f hf d hd
+        rcases hdeps f (List.mem_filter.1 hf).1 d hd with h | h
+        · exact Or.inl (List.mem_append_left _ h)
+        · rcases mem_fileNames.1 h with ⟨g, hg, hgn⟩
+          by_cases hgr : (g.deps.all (· ∈ done)) = true
+          · exact Or.inl (List.mem_append_right _ (mem_fileNames.2 ⟨g, List.mem_filter.2 ⟨hg, hgr⟩, hgn⟩))
+          · exact Or.inr (mem_fileNames.2 ⟨g, List.mem_filter.2 ⟨hg, by simpa using hgr⟩, hgn⟩)
+      · have hlt := filter_length_lt (fun f : DFile => !(f.deps.all (· ∈ done))) (fun _ => true) fs
+          (by intro _ _ _; rfl) ⟨m, hm, rfl, by simp [hmready]⟩
+        have : (fs.filter (fun _ => true)).length = fs.length := by simp
+        omega
+
+theorem newFiles_ok {files ds : List DFile} (hwf : WFFiles files) (hsub : ∀ f ∈ ds, f ∈ files)
+    (hnd : (fileNames ds).Nodup) (hcl : Closed ds) : newFiles ds = .ok ds := by
+  have h1 : nodupB (fileNames ds) = true := (nodupB_iff _).2 hnd
+  have h2 : closedB ds = true := by
+    unfold closedB
+    rw [List.all_eq_true]
+    intro f hf
+    rw [List.all_eq_true]
+    intro d hd
+    simpa using hcl f hf d hd
+  have h3 : acyclicB ds = true := by
+    rcases hwf.acyclic with ⟨rank, hrank⟩
+    unfold acyclicB
+    apply peel_ok rank
+    · intro f hf; exact hrank f (hsub f hf)
+    · intro f hf d hd; exact Or.inr (hcl f hf d hd)
+    · exact Nat.le_refl _
+  have h4 : nodupB (symbols ds) = true := by
+    rw [nodupB_iff]
+    unfold symbols
+    exact nodup_flatMap_of_subset _ hwf.symbols ds (nodup_of_nodup_names hnd) hsub
+  have h5 : typesResolveB ds = true := by
+    have hsrv := hwf.types
+    unfold typesResolveB at hsrv ⊢
+    rw [List.all_eq_true] at hsrv ⊢
+    intro f hf
+    have hf0 := hsrv f (hsub f hf)
+    simp only [List.all_eq_true] at hf0 ⊢
+    intro sv hsv m hm
+    have hvis : ∀ x, x ∈ f.messages ++ (files.filter (fun g => g.name ∈ f.deps)).flatMap (·.messages) →
+        x ∈ f.messages ++ (ds.filter (fun g => g.name ∈ f.deps)).flatMap (·.messages) := by
+      intro x hx
+      rcases List.mem_append.1 hx with hx | hx
+      · exact List.mem_append_left _ hx
+      · rcases List.mem_flatMap.1 hx with ⟨g, hg, hxg⟩
+        rcases List.mem_filter.1 hg with ⟨hg1, hg2⟩
+        have hgd : g.name ∈ f.deps := by simpa using hg2
+        rcases mem_fileNames.1 (hcl f hf g.name hgd) with ⟨g', hg', hgn⟩
+        have : g' = g := eq_of_name_eq hwf.nodup (hsub g' hg') hg1 hgn
+        subst this
+        exact List.mem_append_right _ (List.mem_flatMap.2 ⟨g', List.mem_filter.2 ⟨hg', hg2⟩, hxg⟩)
+    have := hf0 sv hsv m hm
+    simp only [Bool.and_eq_true, decide_eq_true_eq] at this ⊢
+    exact ⟨hvis _ this.1, hvis _ this.2⟩
+  unfold newFiles
+  simp [h1, h2, h3, h4, h5]
+
+/-- service names are among the symbols -/
+theorem serviceNames_sublist : ∀ (files : List DFile),
+    ((files.flatMap (·.services)).map (·.name)).Sublist (symbols files) := by
+  intro files
+  induction files with
+  | nil => simp [symbols]
+  | cons a rest ih =>
+    have h1 : symbols (a :: rest) = (a.messages ++ a.services.map (·.name)) ++ symbols rest := by simp [symbols]
+    rw [h1, List.flatMap_cons, List.map_append]
+    exact List.Sublist.append (List.sublist_append_right _ _) ih
+
+theorem find_unique : ∀ (l : List DService) (sv : DService), sv ∈ l →
+    (∀ a ∈ l, a.name = sv.name → a = sv) → l.find? (fun s => s.name == sv.name) = some sv := by
+  intro l
+  induction l with
+  | nil => intro sv h; simp at h
+  | cons x rest ih =>
+    intro sv hin huniq
+    rw [List.find?_cons]
+    by_cases hx : x.name = sv.name
+    · have : x = sv := huniq x List.mem_cons_self hx
+      subst this; simp
+    · have hx' : (x.name == sv.name) = false := by simpa using hx
+      rw [hx']
+      rcases List.mem_cons.1 hin with e | hin'
+      · exact absurd (by rw [e]) hx
+      · exact ih sv hin' (fun a ha => huniq a (List.mem_cons_of_mem _ ha))
+
+/-- the registry's definition of a service is the target's -/
+theorem findService_eq {files ds : List DFile} (hsym : (symbols files).Nodup) (hsub : ∀ f ∈ ds, f ∈ files)
+    {f : DFile} {n : Name} (hf : f ∈ ds) (hd : definesService f n) :
+    findService ds n = findService files n := by
+  rcases hd with ⟨sv, hsv, rfl⟩
+  have hnd : ((files.flatMap (·.services)).map (·.name)).Nodup := (serviceNames_sublist files).nodup hsym
+  have hall : ∀ a ∈ files.flatMap (·.services), a.name = sv.name → a = sv := by
+    intro a ha hn
+    exact eq_of_key_eq (α := DService) (fun s => s.name) (l := files.flatMap (·.services)) hnd ha
+      (List.mem_flatMap.2 ⟨f, hsub f hf, hsv⟩) hn
+  have hmem : ∀ a ∈ ds.flatMap (·.services), a ∈ files.flatMap (·.services) := by
+    intro a ha
+    rcases List.mem_flatMap.1 ha with ⟨g, hg, hag⟩
+    exact List.mem_flatMap.2 ⟨g, hsub g hg, hag⟩
+  unfold findService
+  rw [find_unique _ sv (List.mem_flatMap.2 ⟨f, hf, hsv⟩) (fun a ha => hall a (hmem a ha)),
+    find_unique _ sv (List.mem_flatMap.2 ⟨f, hsub f hf, hsv⟩) hall]
+
 end GB.C05
